@@ -197,6 +197,19 @@ def check(run):
         texts = {n: ' '.join(t) for n, _, _, t in blocks}
         texts['gdecl'] = 'const string s = %s ;\nint i , j ; bool b ; clock x , y ; chan c ; const int N = 3 ; int arr [ N ] ;\nint f ( int p ) { return p + zz9 ; }' % lit
         cases.append(dict(block='gdecl', path='/nta/declaration', kind='decl', fault='undeclared', pos=0, texts=texts, style=nm, xml=render(texts), tokens=[]))
+    # accepted models that draw warnings (a strict invariant, a local that shadows a global, a comparison that is always true ...), laid out over
+    # several lines: the range of a warning may span lines, and both of its ends must lie inside the element's text
+    for k in range(40 if thorough else 12):
+        blocks = base_blocks(rng)
+        style = styles[1 + k % (len(styles) - 1)]
+        texts = {}
+        for (n2, p2, k2, t2) in blocks:
+            t3 = list(t2)
+            if n2 == 't1inv': t3 = 'z < N + k'.split()                                    # $Strict_invariant, over the whole expression
+            if n2 == 'gdecl': t3 = [('urgent chan' if w == 'chan' else w) for w in t2]       # an urgent channel: clock guards and strict bounds on its edges draw warnings
+            if n2 == 't1guard': t3 = 'i == s && z > 1 && f ( k ) > 0'.split()
+            texts[n2] = layout(t3, rng, style)
+        cases.append(dict(block='t1inv', path='/nta/template[1]/location[1]/label[1]', kind='warning-model', fault='warnings', pos=0, texts=texts, style=style, xml=render(texts), tokens=[]))
     # the fault-free model must be accepted (otherwise the generator is wrong)
     blocks = base_blocks(rng)
     clean = render({n: ' '.join(t) for n, _, _, t in blocks})
